@@ -1,6 +1,7 @@
 package engine
 
 import (
+	"fmt"
 	"go/constant"
 	"go/types"
 	"strings"
@@ -205,4 +206,18 @@ func CallOf(v ssa.Value) (ssa.CallInstruction, int) {
 		}
 	}
 	return nil, -1
+}
+
+// SafeString renders an SSA value for a diagnostic; synthesized values
+// (derived facts) have no block and make ssa's printer panic.
+func SafeString(v ssa.Value) (s string) {
+	defer func() {
+		if recover() != nil {
+			s = fmt.Sprintf("<derived %T>", v)
+		}
+	}()
+	if v == nil {
+		return "<nil>"
+	}
+	return v.String()
 }
